@@ -2068,6 +2068,10 @@ class MultiValuedValue(Value):
     def __ne__(self, other: Value) -> bool:
         return not (self == other)
 
+    def __hash__(self) -> int:
+        # Must be consistent with __eq__, which ignores the order of the members.
+        return hash(frozenset(self.vals))
+
     def __str__(self) -> str:
         if not self.vals:
             return "Never"
